@@ -223,6 +223,8 @@ class Runner:
         self.max_ms = 0
         self.cert_fail = 0
         self.plain = 0
+        self.outside = 0
+        self.outside_cert_fail = 0
         self.wf_fail = 0
         self.skipped = 0
 
@@ -305,6 +307,10 @@ class Runner:
                 self.cert_fail += 1
             if m.get("plain") == "1":
                 self.plain += 1
+            else:
+                self.outside += 1
+                if m.get("cert") != "1":
+                    self.outside_cert_fail += 1
             unstable = "(case 4 " in c.line
             for k in FIELDS:
                 if k not in m and k not in f:
@@ -542,9 +548,13 @@ def check(ctx):
     ctx.stats["skipped_after_failures"] = skipped + runner.skipped
     ctx.oblige("per-tree certificate (the lemma C01_code_fits still lacks): gross bytes of the model's program pass == progLength of its counting pass, on every modelled tree",
                runner.cert_fail == 0, "%d trees fail" % runner.cert_fail)
+    ctx.oblige("trees outside Node.plain (a unary minus on an operand that is neither a literal nor ends in a non-literal opcode): the per-tree certificate held for each of the %d (of %d modelled trees)" % (runner.outside, runner.modelled),
+               runner.outside_cert_fail == 0, "%d fail" % runner.outside_cert_fail)
+    common.log("C01 class: %d of %d modelled trees in Node.plain, %d outside, certificate failures outside: %d" % (runner.plain, runner.modelled, runner.outside, runner.outside_cert_fail))
     ctx.samples = [c.src.decode("latin1")[:300] for c in random_cases(ctx.rng("sample"), 4, False)]
     cov = {
         "evaluations": runner.cases, "distinct_nontrivial": len(runner.distinct), "modelled_trees": runner.modelled, "trees_in_class_plain_of_C01_code_fits_partial2": runner.plain,
+        "trees_outside_class_plain": runner.outside, "certificate_failures_outside_class": runner.outside_cert_fail,
         "rule": "inputs: replayed corpus, deterministic stress families (break-before-continue / continue-before-break / interleaved in every loop kind with nesting, fix-up table bounds 99/100/101 per loop kind and wrapper, lexical edge cases: tokens around flex's 8/16 KB buffers, NUL bytes, unterminated strings / comments, trailing backslashes; label-set sizes up to 300 with nesting, try-in-catch / switch-in-switch / try-in-try nesting up to 40, peephole chains) and random programs / token mutations / byte noise; non-trivial = passes the parser; distinct by SHA-1 of the source",
         "outcome_histogram": dict(runner.out_hist), "generator_histogram": dict(runner.gen_hist),
         "node_kind_histogram": dict(runner.node_hist), "max_compile_ms": runner.max_ms, "exhaustive": False,
